@@ -46,6 +46,7 @@ func builtinsRecord(m map[string]string) error {
 	}
 	forms := map[string]*builtinForm{}
 	counts := map[string]int{}
+	nontrivial := map[string]bool{} // distinct (built-in, argument) pairs with a non-integral numeric argument
 	for i, c := range cases {
 		ev, err := runBuiltinCase(forms, c, i+1)
 		if err != nil {
@@ -53,6 +54,9 @@ func builtinsRecord(m map[string]string) error {
 		}
 		counts[ev.Ev]++
 		counts["res_"+ev.Res.T]++
+		if ev.X != nil && ev.X.F != 0 {
+			nontrivial[fmt.Sprintf("%s/%d/%016x", c.F, c.N, math.Float64bits(c.X))] = true
+		}
 		if err := w.Write(ev); err != nil {
 			return err
 		}
@@ -68,6 +72,7 @@ func builtinsRecord(m map[string]string) error {
 			return err
 		}
 	}
+	counts["nontrivial"] = len(nontrivial)
 	b, _ := json.Marshal(counts)
 	fmt.Println(string(b))
 	return w.Close()
